@@ -96,7 +96,8 @@ def run_cell(rec, cell):
     hcfg = {'connect': [out]}
     if greet:
         hcfg['connect_send'] = 'welcome'
-    sim = scen.make_sim(srv, server_kwargs=kw, handler_cfg=hcfg,
+    sim = scen.make_sim(srv, real_ws_driver=sum(cell[:9]) % 2 == 0,
+                        server_kwargs=kw, handler_cfg=hcfg,
                         websocket_available=ws_avail)
     try:
         _cell(rec, sim, case, pi, pt, mb, au, tr, cookie_expect, out, okind,
